@@ -32,6 +32,14 @@ impl Names {
         id
     }
 
+    /// the server chose the id of this connection (socket drivers)
+    pub fn bind(&mut self, name: &str, id: &str) {
+        if let Ok(u) = Uuid::parse_str(id) {
+            self.cur.insert(name.to_owned(), u);
+            self.rev.insert(u.to_string(), name.to_owned());
+        }
+    }
+
     pub fn id(&mut self, name: &str) -> Uuid {
         if name == "int" {
             return Uuid::nil();
